@@ -4,7 +4,7 @@ from .types import *
 
 class FnSpec:
     def __init__(self, qual, params=None, ret=None, requires=None, ensures=None, raises=None, loops=None,
-                 ghost=None, locals=None, modifies=None, witness=None, pure=False, exit_hints=None, call_ghosts=None, assigns=None, opaque_arith=False):
+                 ghost=None, locals=None, modifies=None, witness=None, pure=False, exit_hints=None, call_ghosts=None, assigns=None, opaque_arith=False, exports=None):
         self.qual = qual
         self.params = dict(params or {})         # name -> Ty  (includes ghost params)
         self.ret = ret
@@ -17,6 +17,8 @@ class FnSpec:
         self.modifies = modifies                 # None = everything reachable from params may change; else list of path strings
         self.witness = witness
         self.pure = pure; self.opaque_arith = opaque_arith
+        self.exports = dict(exports or {})       # callee locals (name -> Ty) whose exit values callers may refer to: at a call site a fresh value stands for each (exists-introduction:
+                                                 # the callee's proof exhibits the witness), named <local>_of_<function> in the caller's ghost state
         self.assigns = list(assigns or [])       # fields this method definitely assigns before reading them (it may be called on a partially constructed object)
         self.call_ghosts = dict(call_ghosts or {})   # callee qualname -> {ghost param: expr in the caller's state}
         self.exit_hints = dict(exit_hints or {})   # proved at every normal exit, then assumed for the postconditions
